@@ -767,9 +767,27 @@ def check_parse(fx, rep, rule):
     # rename the buffer parameter
     bufname = [prm["pat"]["name"] for prm in b["params"] if prm.get("pat") and "[u8]" in prm["ty"]]
 
+    def hand_aligned(g):
+        """X, N for `X.get(X.as_ptr().align_offset(N)..)` - watto's `align_to(X, N)` spelled out (its body is exactly `offset =
+        as_ptr().align_offset(N); if len < offset { None } else { Some(split_at(offset)) }`: checked below as C11-style premise)"""
+        if g[0] == "call" and g[1] == "core::slice::get" and len(g[2]) == 2 and g[2][1][0] == "adt" and g[2][1][2] == "RangeFrom":
+            st_ = dict(g[2][1][3]).get("start")
+            if st_ is not None and st_[0] == "call" and st_[1].endswith("align_offset") and len(st_[2]) == 2 \
+                    and st_[2][0] == ("call", "core::slice::as_ptr", (g[2][0],)):
+                return g[2][0], st_[2][1]
+        return None
+    used_hand = []
+
     def rw(t):
         if t[0] == "in" and bufname and t[1] == bufname[0]:
             return ("in", "buf")
+        if t[0] == "is" and t[2] == "Some" and hand_aligned(t[1]):
+            x_, n_ = hand_aligned(t[1])
+            used_hand.append(1)
+            return ("is", ("call", "watto::helpers::align_to", (x_, n_)), "Some")
+        if t[0] == "payload" and t[2] == "Some" and t[3] == "0" and hand_aligned(t[1]):
+            x_, n_ = hand_aligned(t[1])
+            return mk_field(mk_payload(("call", "watto::helpers::align_to", (x_, n_)), "Some", "0"), "1")
         return None
     ref = ref_parse(fx)
     bad, ncmp = fc.compare_paths(res, ref, lambda st_, out_: fc.rewrite(parse_outcome(st_, out_), rw), rw=rw)
@@ -792,6 +810,15 @@ def check_parse(fx, rep, rule):
                           expected=render_parse(ref_o))
         if len(oks) != 1:
             rep.violation(rule, "%s/ok-paths" % rule, loc=F.short_file(b["sp"]), found="%d Ok paths" % len(oks), expected="exactly one Ok")
+    if used_hand:
+        # the premise of reading `get(align_offset..)` as watto's align_to: that is how watto does it
+        wa = fx.bodies.get("watto::helpers::align_to")
+        okw = False
+        if wa is not None:
+            calls_ = [n_["fn"]["path"].split("::")[-1] for n_ in F.walk(wa["body"]) if n_.get("k") == "Call" and "fn" in n_]
+            okw = sorted(calls_) == ["align_offset", "as_ptr", "len", "split_at"]
+        rep.check(rule, "%s/align-to-model" % rule, okw, loc="watto/src/helpers.rs", found="watto::helpers::align_to calls %s" % (calls_ if wa else "?"),
+                  expected="as_ptr().align_offset(n), len() < offset -> None, split_at(offset)", nontrivial=False)
     # buffer access discipline: only checked watto APIs, no indexing
     sites = [n for n in F.walk(b["body"]) if n.get("k") == "Index" or F.is_call(n, "std::ops::Index::index", "core::slice::<impl [T]>::get_unchecked", "split_at")]
     rep.check(rule, "%s/buffer-access" % rule, not sites, loc=F.short_file(b["sp"]),
